@@ -5,4 +5,4 @@ From Flatcc.Emitter Require Import EmitterModel EmitModel.
 Extraction Language OCaml.
 Extraction "../ocaml/emitter/model.ml"
   est_init emitter reset clear recycle copy_buffer_c copy_buffer direct_buffer buffer_size abs start_off end_off last_off
-  build_iov bst_init emit_front emit_back emit_site run_sites toolarge_c toolarge_fixed site_inventory site_pushes site_back.
+  build_iov bst_init emit_front emit_back emit_site run_sites toolarge_c toolarge_fixed site_inventory site_pushes site_back bst_reset run_rounds.
